@@ -435,7 +435,8 @@ def tail_checks(case, rec, lens, spec, vig):
     Hy = case['Hy']
     lens.trace_generic(np.zeros(n), np.full(n, Hy), Px.copy(), Py.copy(), wl)
     sg = lens.surface_group
-    full = np.stack([sg.x, sg.y, sg.z, sg.L, sg.M, sg.N, sg.opd]).copy()      # (7, K+1, n)
+    full = np.stack([sg.x, sg.y, sg.z, sg.L, sg.M, sg.N, sg.opd, sg.intensity]).copy()      # (8, K+1, n): the intensities too
+    # (under a polarization state they depend on the s/p frames built per surface - per ray, not per batch)
     scale = max(1.0, float(np.nanmax(np.abs(np.where(np.isfinite(full[:3]), full[:3], 0)))))
 
     def cmp_batch(what, got, want):
@@ -448,17 +449,17 @@ def tail_checks(case, rec, lens, spec, vig):
     # alone
     j = 0
     lens.trace_generic(0.0, Hy, float(Px[j]), float(Py[j]), wl)
-    one = np.stack([sg.x, sg.y, sg.z, sg.L, sg.M, sg.N, sg.opd])[:, :, 0]
+    one = np.stack([sg.x, sg.y, sg.z, sg.L, sg.M, sg.N, sg.opd, sg.intensity])[:, :, 0]
     cmp_batch('alone', one, full[:, :, j])
     # permuted
     perm = np.array(case['perm'])
     lens.trace_generic(np.zeros(n), np.full(n, Hy), Px[perm].copy(), Py[perm].copy(), wl)
-    pm = np.stack([sg.x, sg.y, sg.z, sg.L, sg.M, sg.N, sg.opd])
+    pm = np.stack([sg.x, sg.y, sg.z, sg.L, sg.M, sg.N, sg.opd, sg.intensity])
     cmp_batch('in a permuted batch', pm, full[:, :, perm])
     # with companions that are lost (far outside the pupil: they miss surfaces / are totally reflected)
     Pxx, Pyy = np.concatenate([Px, [7.0, -9.0, 3.0]]), np.concatenate([Py, [6.0, 8.0, -11.0]])
     lens.trace_generic(np.zeros(n + 3), np.full(n + 3, Hy), Pxx, Pyy, wl)
-    comp = np.stack([sg.x, sg.y, sg.z, sg.L, sg.M, sg.N, sg.opd])[:, :, :n]
+    comp = np.stack([sg.x, sg.y, sg.z, sg.L, sg.M, sg.N, sg.opd, sg.intensity])[:, :, :n]
     cmp_batch('with lost companions', comp, full)
     # in a crowd: the same rays together with 3000 easy near-axis rays (batch-wide convergence tests must not
     # abandon the slow ones)
@@ -467,15 +468,35 @@ def tail_checks(case, rec, lens, spec, vig):
     cy = np.concatenate([Py, 1e-3 * np.sin(np.linspace(0, 6.28, crowd))])
     cx[-1] = cy[-1] = 0.0             # ... one of them the ray along the axis itself
     lens.trace_generic(np.zeros(n + crowd), np.concatenate([np.full(n, Hy), np.zeros(crowd)]), cx, cy, wl)
-    cr = np.stack([sg.x, sg.y, sg.z, sg.L, sg.M, sg.N, sg.opd])[:, :, :n]
+    cr = np.stack([sg.x, sg.y, sg.z, sg.L, sg.M, sg.N, sg.opd, sg.intensity])[:, :, :n]
     cmp_batch('in a crowd of 3000 near-axis rays', cr, full)
     # after an unrelated trace
     lens.trace(0.0, 0.0, wl, 3, 'hexapolar')
     lens.paraxial.marginal_ray()
     lens.trace_generic(np.zeros(n), np.full(n, Hy), Px.copy(), Py.copy(), wl)
-    again = np.stack([sg.x, sg.y, sg.z, sg.L, sg.M, sg.N, sg.opd])
+    again = np.stack([sg.x, sg.y, sg.z, sg.L, sg.M, sg.N, sg.opd, sg.intensity])
     rec.check('repeatable', np.array_equal(again, full, equal_nan=True), key='repeatable:after-unrelated-calls',
               msg='the same batch traced after unrelated trace/paraxial calls is not bit-identical')
+    # under a polarization state the returned intensities come from s/p frames built ray by ray: a ray's intensity is the
+    # same in a bundle (which contains the undeviated axial ray) and alone
+    if spec.get('polarization', 'ignore') != 'ignore':
+        from optiland.distribution import create_distribution
+        for Hq in (0.0, Hy):
+            db = create_distribution('hexapolar')
+            db.generate_points(2)
+            rb = lens.trace(0.0, Hq, wl, distribution=db)
+            ib = np.array(rb.i, float).copy()
+            alone = []
+            for q in range(len(db.x)):
+                d1 = create_distribution('hexapolar')
+                d1.x, d1.y = np.array([float(db.x[q])]), np.array([float(db.y[q])])
+                alone.append(float(np.ravel(lens.trace(0.0, Hq, wl, distribution=d1).i)[0]))
+            alone = np.array(alone)
+            samef = np.array_equal(np.isfinite(ib), np.isfinite(alone))
+            fin_ = np.isfinite(ib) & np.isfinite(alone)
+            r_ = float(np.max(np.abs(ib[fin_] - alone[fin_]))) if fin_.any() else 0.0
+            rec.check('batch-independence', samef and r_ <= 1e-12, resid=r_, tol=1e-12, key='batch-independence:polarized-intensity',
+                      msg=f'polarized trace (Hy={Hq}): the intensity of a ray in a hexapolar bundle differs from the same ray traced alone by {r_:.3e}')
     # what the surface records hold when an analysis starts must not matter: a lone ray, a bundle, nothing
     from optiland.wavefront import Wavefront
     outs = []
